@@ -105,9 +105,9 @@ func TestC14Enum(t *testing.T) {
 
 // SockCase: a lifecycle on a kernel listener.
 type SockCase struct {
-	Kind     string `json:"kind"`      // unixfs | unixabs | tcp
-	Via      string `json:"via"`       // listen | bind+dolisten
-	Open     int    `json:"open"`      // connections open at the moment of Shutdown / during the idle period
+	Kind     string `json:"kind"`       // unixfs | unixabs | tcp
+	Via      string `json:"via"`        // listen | bind+dolisten
+	Open     int    `json:"open"`       // connections open at the moment of Shutdown / during the idle period
 	TimeoutM int    `json:"timeout_ms"` // 0: shutdown scenario (C14); else idle-timeout scenario (C15)
 	Cycles   int    `json:"cycles"`
 }
